@@ -133,8 +133,6 @@ def check_shl(ctx, rp, env):
                       "counterexample of the as-found model (Fixed = FALSE) violating AliveWhilePending, %d steps, followed step by "
                       "step by the real code." % (len(res.trace) - 1), text + "#" + out.replace("\n", "\n#") + "\n")
         return False
-    run_cfg(ctx, rp, "shl", ["h1"], ["shl"], ALL_KINDS, co=["h1"], bl=["h1"], po=["h1"], copies=1, handles=2, env=env,
-            max_paths=1500 if ctx.quick else None, must=["PrePload"])
     return True
 
 
@@ -160,28 +158,33 @@ def run(ctx):
     h1, h2 = ["h1"], ["h1", "h2"]
     broken_variant_must_fail(ctx, "v1", "notracer", "AliveWhilePending")
     broken_variant_must_fail(ctx, "v2", "noreset", "AtEnd")
-    check_shl(ctx, rp, env)
+    # mode "shl" (repaired model) is part of the regular configurations unless the tree still has the as-found operator<<
+    modes = ALL_MODES + (["shl"] if check_shl(ctx, rp, env) else [])
     seq_must = ["LateInit", "NullPoll", "PrePload", "PreFence", "PreFinal", "PreDload", "Copy"]
     if ctx.quick:
         ctx.exhaustive = False
         # one handle thread against the resolver: every construction mode, every resolver kind (sampled paths)
-        run_cfg(ctx, rp, "s1", h1, ALL_MODES, ALL_KINDS, co=h1, bl=h1, po=h1, copies=1, handles=2, max_paths=2500, must=seq_must)
+        run_cfg(ctx, rp, "s1", h1, modes, ALL_KINDS, co=h1, bl=h1, po=h1, copies=1, handles=2, max_paths=3500, must=seq_must)
         run_cfg(ctx, rp, "s2", h1, ["fn", "late", "setval"], ["val", "drop"], cb=h1, bl=h1, copies=1, handles=2, must=["BeginCb"])
         # two handle threads: drop of the last handle against the resolver's chain walk / tracer release
         kinds = [ALL_KINDS[ctx.seed % 4]]
         run_cfg(ctx, rp, "c1", h2, ["fn"], kinds, co=["h1"], bl=["h2"], copies=1, handles=1, must=["Copy"])
         run_cfg(ctx, rp, "c2", h2, ["retfut", "async"], ["val"], co=["h2"], po=["h1"], copies=1, handles=1)
         run_cfg(ctx, rp, "c3", h2, ["fn"], ["val"], cb=["h1"], bl=["h2"], copies=2, handles=1)
+        run_cfg(ctx, rp, "c4", h2, [modes[-1]], ["val"], co=["h1"], bl=["h2"], po=["h2"], copies=2, handles=2, max_paths=1500)
     else:
-        run_cfg(ctx, rp, "s1", h1, ALL_MODES, ALL_KINDS, co=h1, bl=h1, cb=h1, po=h1, copies=1, handles=2, env=env,
+        # (the largest graphs are replayed by an edge cover capped at max_paths; the others completely)
+        run_cfg(ctx, rp, "s1", h1, modes, ALL_KINDS, co=h1, bl=h1, cb=h1, po=h1, copies=1, handles=2, env=env, max_paths=12000,
                 must=seq_must + ["BeginCb"])
-        for kind in ALL_KINDS:
-            run_cfg(ctx, rp, "c1" + kind, h2, ["fn", "retfut"], [kind], co=["h1"], bl=["h2"], po=["h2"], copies=2, handles=2, env=env)
-        run_cfg(ctx, rp, "c2", h2, ["async", "late", "fnsync", "setval", "setexc", "asyncsync"], ["val", "dtor"], co=["h2"], bl=["h1"],
-                copies=2, handles=2, env=env)
-        run_cfg(ctx, rp, "c3", h2, ["fn", "retfut"], ["val", "drop"], cb=["h1"], bl=["h2"], co=["h2"], copies=2, handles=1, env=env)
-        run_cfg(ctx, rp, "c4", h2, ["fn"], ["val", "exc"], co=h2, bl=h2, copies=1, handles=1, env=env)
-        run_cfg(ctx, rp, "c5", h2, ["fn", "late"], ["val"], cb=h2, po=h2, copies=2, handles=2, env=env)
+        run_cfg(ctx, rp, "c1val", h2, ["fn", "retfut"], ["val"], co=["h1"], bl=["h2"], po=["h2"], copies=2, handles=2, env=env)
+        run_cfg(ctx, rp, "c1dtor", h2, ["fn"], ["dtor"], co=["h1"], bl=["h2"], po=["h2"], copies=2, handles=2, env=env)
+        run_cfg(ctx, rp, "c1exc", h2, ["fn", "retfut"], ["exc", "drop"], co=["h1"], bl=["h2"], copies=1, handles=1, env=env)
+        run_cfg(ctx, rp, "c2", h2, [m for m in modes if m not in ("fn", "retfut")], ["val", "dtor"], co=["h2"], bl=["h1"],
+                copies=2, handles=2, env=env, max_paths=8000)
+        run_cfg(ctx, rp, "c3", h2, ["fn", "retfut"], ["val", "drop"], cb=["h1"], bl=["h2"], co=["h2"], copies=2, handles=1, env=env,
+                max_paths=6000, must=["BeginCb"])
+        run_cfg(ctx, rp, "c4", h2, ["fn"], ["val", "exc"], co=h2, bl=h2, copies=1, handles=1, env=env, max_paths=6000)
+        run_cfg(ctx, rp, "c5", h2, ["fn", "late"], ["val"], cb=h2, po=h2, copies=2, handles=2, env=env, max_paths=6000)
         run_cfg(ctx, rp, "t3", ["h1", "h2", "h3"], ["fn"], ["val"], co=["h2"], bl=["h3"], copies=2, handles=1, env=env)
         # larger bounds, specification only
         tlc_only(ctx, "big", h2, ["fn"], ["val"], co=h2, bl=h2, cb=[], po=h2, copies=2, handles=2)
